@@ -552,10 +552,21 @@ class Compiler:
 
   def s_FunctionDef(self, s):
     fr = self.frames[-1]
-    captured = {}
-    captured.update(fr.closure)
-    captured.update(fr.env)
+    # python closures bind late: the nested function sees the enclosing variables as they are when it is called (a name the enclosing
+    # function assigns after the def is visible too) - a live view of the enclosing frame, not a copy
+    import collections
+    captured = collections.ChainMap(fr.env, fr.closure)
     fr.env[s.name] = SF(node=s, closure=captured, qualname=fr.qualname + ".<locals>." + s.name, globs=fr.globs, defcls=fr.defcls)
+
+  def e_Lambda(self, e):
+    """a lambda is a nested function whose body is one return statement"""
+    import collections
+    fr = self.frames[-1]
+    self.ntemp += 1
+    node = ast.FunctionDef(name="_vf_lambda_%d" % self.ntemp, args=e.args, body=[ast.Return(value=e.body)], decorator_list=[], returns=None, type_comment=None)
+    ast.copy_location(node, e)
+    ast.fix_missing_locations(node)
+    return SF(node=node, closure=collections.ChainMap(fr.env, fr.closure), qualname=fr.qualname + ".<locals>.<lambda>", globs=fr.globs, defcls=fr.defcls)
 
   def s_Raise(self, s):
     exname = "Exception"
@@ -1212,6 +1223,12 @@ class Compiler:
     elif isinstance(v, str):
       m = self.sc.add(M.MAttr(name, self.sc.strings.code(v)))
       m.typ = "str"
+    elif isinstance(v, dict) and not v and type(v) is dict:
+      # an empty dict: a small dict model (3 entries; keys and values are whatever the code stores)
+      m = self.sc.add(M.MDict(name, 3))
+      obj.attrs[attr] = m
+      self.sc.auto_bound.append((obj.name, attr, m.name, "dict"))
+      return True
     elif isinstance(v, list) and not v and getattr(self.sc, "default_lists", None) is not None:
       # an empty list: one more list of the scenario's pool of python lists, existing from the start
       lists = self.sc.default_lists
